@@ -6,6 +6,7 @@ import Mathlib.Tactic.NormNum
 import Mathlib.Tactic.Linarith
 import HapModel.Model.PhenoSim
 import HapModel.Real.LdReal
+import HapModel.Real.FloatRound
 /-!
 Real-arithmetic property theorems (Mathlib), registered under the properties they serve.
 -/
@@ -207,3 +208,21 @@ theorem R_is_pearson (a b : List Int) (s : Stat) (h : stat a b = some s) :
     rfl
 
 end C16R
+
+namespace C15R
+open FloatText
+
+/-- **every non-negative decimal value has exactly one correctly rounded (nearest, ties-to-even) double**: existence by the
+    nearest-integer division of `roundDec` (`FloatText.roundDec_correct`), uniqueness by `roundsTo_unique` – rounding a decimal
+    token to binary64 is a total function of the token's value, so `float_codec_contract`'s reader hypothesis is satisfiable and
+    the round trip of a file depends on the file alone -/
+theorem every_decimal_has_exactly_one_reading (a b : Nat) (hb : 0 < b) :
+    ∃ d, (Canon d ∧ RoundsTo a b d) ∧ ∀ d', Canon d' ∧ RoundsTo a b d' → d' = d :=
+  ⟨roundDec a b, roundDec_correct a b hb,
+   fun d' h => roundsTo_unique a b hb d' _ h.1 (roundDec_correct a b hb).1 h.2 (roundDec_correct a b hb).2⟩
+
+/-- the certified reader of the driver is total: its candidate always passes the certificate (`uncertified` is never answered) -/
+theorem certified_reader_is_total (a b : Nat) (hb : 0 < b) : readDec a b = some (roundDec a b) :=
+  readDec_total a b hb
+
+end C15R
